@@ -22,7 +22,7 @@ CLAIM = {
              "1-digit one), scaling by 10**k shifts L by k, comparisons of floats are decided by exponents or left open; ints and strings are tracked exactly. Over the complete window L(x) in {zero} U [-24, 8], L(err) within 12 decades of it "
              "(any for zero), all carry / tie bits, every path of format_number_with_error is evaluated and at the final format these obligations are checked: the number of decimals equals 1 - e (e = exponent of the two-digit bracket), so the last shown digit "
              "of the value is the unit of the bracket; value and error were divided by the same power of ten and the suffix prints exactly that power; the bracket has exactly two digits of the (scaled) error. The window is closed under the function's only "
-             "absolute tests (exponent in {-1, 0, 1}); beyond it behaviour is translation invariant. Not decided: digit-level correctness of CPython's rounding; nan / inf / err <= 0."),
+             "absolute tests (exponent in {-1, 0, 1}); beyond it behaviour is translation invariant. A value rebuilt from a '{:e}' / '{:.1e}' string carries only that many significant digits; printing more of them is reported (digits-lost). Not decided: digit-level correctness of CPython's rounding; nan / inf / err <= 0."),
     "note": "Trusted base: CPython's format rounds correctly and prints floor(log10|v|) or that plus one; the idiom table of xyzsa/props/c20.py. Unknown syntax ends as exit 2.",
     "technique": "static analysis: abstract interpretation of the syntax tree over a decimal-exponent domain with exhaustive enumeration of the finite abstract input window (no solver, no execution)",
 }
@@ -37,13 +37,14 @@ ZERO = "zero"
 class F:
     """abstract float: exponent L (or ZERO), total power of ten divided out,
     and which original variable's mantissa it carries."""
-    __slots__ = ("L", "div", "src")
+    __slots__ = ("L", "div", "src", "prec")
 
-    def __init__(self, L, div, src):
-        self.L, self.div, self.src = L, div, src
+    def __init__(self, L, div, src, prec=None):
+        # prec: number of significant digits the value still carries (None = all of the float's)
+        self.L, self.div, self.src, self.prec = L, div, src, prec
 
     def scaled(self, k):
-        return F(self.L if self.L == ZERO else self.L - k, self.div + k, self.src)
+        return F(self.L if self.L == ZERO else self.L - k, self.div + k, self.src, self.prec)
 
 
 class Unknown(Exception):
@@ -260,6 +261,22 @@ class Interp:
                     return args[0]
                 if isinstance(args[0], tuple) and args[0] and args[0][0] == "reread":
                     return args[0]
+            if f.id == "float" and len(args) == 1 and isinstance(args[0], tuple) and args[0][0] == "concat":
+                # float(f"{mantissa}e{k}") with mantissa taken from a '{:e}' / '{:.1e}' print: the value rounded to that many significant digits, times 10**(k - printed exponent)
+                parts = [p for p in args[0][1] if not (p[0] == "lit" and p[1] == "")]
+                if len(parts) == 3 and parts[0][0] == "fmt" and isinstance(parts[0][1], tuple) and parts[0][1][0] == "mant" and parts[0][2] == "" and parts[1] == ("lit", "e") \
+                        and parts[2][0] == "fmt" and isinstance(parts[2][1], int) and not isinstance(parts[2][1], bool) and parts[2][2] == "":
+                    _, val, digits = parts[0][1]
+                    carry = self.bits[("c6" if digits == 6 else "c1", val.src)]
+                    printed = 0 if val.L == ZERO else val.L + carry
+                    shift = printed - parts[2][1]
+                    out = val.scaled(shift)
+                    if val.L != ZERO and carry:
+                        out = F(out.L + 1, out.div, out.src, out.prec)      # the rounding carried into the next decade
+                    keep = digits + 1
+                    out.prec = keep if out.prec is None else min(out.prec, keep)
+                    return out
+                raise AnalysisError("C20 interpreter: call %s" % norm(e))
             if f.id == "float" and len(args) == 1 and isinstance(args[0], tuple) and args[0][0] == "fixed":
                 # value re-read from its fixed-point print: magnitude may have carried into the next decade
                 return ("reread", args[0][1])
@@ -470,6 +487,8 @@ def run(ctx):
                         else:
                             problems.append(("precision", "the value is printed with %d decimals but the two-digit bracket's last digit is the 10^%d place (needs %d decimals): the bracket reads as an error %s than intended"
                                              % (P, e - 1, 1 - e, "10^%d times smaller" % (P - (1 - e)) if P > 1 - e else "10^%d times larger" % ((1 - e) - P))))
+                    if val.prec is not None and val.L != ZERO and val.L + P + 1 > val.prec:
+                        problems.append(("digits-lost", "the value went through a string with %d significant digits but is printed with %d: its lower digits are lost (printed as zeros) although the error says they are significant" % (val.prec, val.L + P + 1)))
                     if val.div != errv.div:
                         problems.append(("scaling", "value and error are divided by different powers of ten (10^%d vs 10^%d)" % (val.div, errv.div)))
                     if val.div != suffix:
